@@ -478,7 +478,7 @@ inline auto cmd_run(std::map<std::string, std::string> const& opt) -> int
         g_crash.steps = steps;
         lastIdx       = i;
         if (dumpFile != nullptr) {
-            std::fprintf(dumpFile, "%ld %016llx %llu %s\n", i, neutralOnly && !sc.compilerNeutral ? 0ULL : static_cast<unsigned long long>(r.hash),
+            std::fprintf(dumpFile, "%ld %016llx %llu %s ;\n", i, neutralOnly && !sc.compilerNeutral ? 0ULL : static_cast<unsigned long long>(r.hash),
                          static_cast<unsigned long long>(seed), sc.name.c_str());
         }
         steps += r.steps;
